@@ -156,6 +156,20 @@ def parse_tokens(s):
     return out
 
 
+def confirm_abnormal(impl, lines, io, op, tag):
+    """HANG / CRASH / NOT-RUN of a sharded run are re-run alone with a long watchdog: on a loaded machine the
+    2.5 s watchdog can fire on a healthy case. (PANIC is deterministic and kept.)"""
+    idx = [i for i, o in enumerate(io) if o in ("HANG", "CRASH", "NOT-RUN")]
+    if not idx or len(idx) > 400:
+        return io
+    p = C.write_cases("c05_confirm_%s.txt" % tag, [C.case(op, lines[i]) for i in idx])
+    again = C.run_impl(impl, p, len(idx), shards=min(4, len(idx)), env={"HX_CASE_TIMEOUT_MS": "10000"})
+    io = list(io)
+    for i, o in zip(idx, again):
+        io[i] = o
+    return io
+
+
 SEG = re.compile(r"^S tok=(.*) arith=([01]) exp=(.*) plan=(.*) fw=(\S+)$")
 
 
@@ -164,6 +178,7 @@ def layer1a(ctx, res, vv, lines, tag):
     p = C.write_cases("c05_line_%s.txt" % tag, [C.case("line", s) for s in lines])
     pf = C.write_cases("c05_front_%s.txt" % tag, [C.case("front", s) for s in lines])
     io = C.run_impl(impl, p, len(lines), env={"HX_CASE_TIMEOUT_MS": "2500"})
+    io = confirm_abnormal(impl, lines, io, "line", tag)
     mf = C.run_model(model, pf)
     backs, where = [], []
     stats = {}
@@ -380,7 +395,7 @@ def judge_l2(line, r):
 def layer2(ctx, res, vv, work):
     model, impl = ctx.model["C05"], ctx.bins["c05"]
     short = all_strings(A14, 4 if ctx.thorough else 3)
-    rnd = gen_l2_lines(ctx, 6000 if ctx.thorough else 700)
+    rnd = gen_l2_lines(ctx, 6000 if ctx.thorough else 500)
     corpus = ["> f", "< f", "2>&1", "echo a | > f", "a>b>c", "A=1 > f", "echo $(<)", "echo {2147483646..2147483647}",
               "99999999999999999999 + 1", "2 ^ 64", "A='$A'; echo $A", "echo \"a\n$HOME\"", "echo $(ls >)", "echo ${A",
               "echo `>`", "echo a | cat <<< x", "echo 'unbalanced", "echo \"unbalanced", "echo $(", "echo ((1)", "a && && b", "| a",
@@ -395,6 +410,7 @@ def layer2(ctx, res, vv, work):
     # model prediction for the own class, from the implementation's in-process tokens
     pl = C.write_cases("c05_l2_line.txt", [C.case("line", s) for s in lines])
     io = C.run_impl(impl, pl, len(lines), env={"HX_CASE_TIMEOUT_MS": "3000"})
+    io = confirm_abnormal(impl, lines, io, "line", "l2")
     with ThreadPoolExecutor(max_workers=C.NCPU) as ex:
         outs = list(ex.map(lambda a: run_l2_one(ctx, work, a[0], a[1]), enumerate(lines)))
     stats = {}
@@ -411,7 +427,7 @@ def layer2(ctx, res, vv, work):
         stats[mode] = stats.get(mode, 0) + 1
         # the script path rewrites the line (escapes, $N arguments: C15/C16) before the pure stages see it, so the model's
         # prediction from the -c path does not apply; a wordless command needs a redirection sign in any case
-        script_only = detail.startswith("script:") and ("<" in s or ">" in s)
+        script_only = (detail.startswith("script:") or not o.startswith("segs=")) and ("<" in s or ">" in s)
         at_site = "core.rs:6" in detail or "types.rs:232" in detail or "panicked at None" in detail   # None: the stage's stderr was redirected
         if mode in ("PANIC", "PANIC-CHILD") and (pred or script_only) and at_site:
             if vv.hit("empty-command", "e.g. %r through the real binary: %s" % (s, detail)):
@@ -502,7 +518,7 @@ def layer3(ctx, res, vv, work):
     rng = ctx.rng
     pool = [chr(c) for c in range(0x20, 0x7f)] + list("éü中文€\U0001F600　Жא") + ["\t", "\t", "\r", "\r", "\x7f", "\x1b[D", "\x1b[A", "\x01", "\x05"]
     sess = []
-    for _ in range(60 if ctx.thorough else 6):
+    for _ in range(60 if ctx.thorough else 4):
         keys = [rng.choice(pool) for _ in range(rng.randint(5, 40))]
         sess.append(keys)
     with ThreadPoolExecutor(max_workers=min(8, C.NCPU)) as ex:
@@ -545,14 +561,20 @@ def run(ctx, res):
         os.environ["HOME"] = work
         la = all_strings(A14, n1)
         lb = all_strings(B14, n1 - 1)
+        # random longer lines stay inside ONE alphabet: A14 can create files (`$(a > x)`), B14 can glob them; mixing
+        # the two makes the result depend on what a parallel shard has just created in the shared scratch cwd
         for _ in range(20000 if ctx.thorough else 3000):
-            al = rng.choice([A14, B14, A14 + B14])
-            la.append("".join(rng.choice(al) for _ in range(rng.randint(5, 12))))
+            al = rng.choice([A14, B14])
+            (la if al is A14 else lb).append("".join(rng.choice(al) for _ in range(rng.randint(5, 12))))
         tm = {}
         t0 = time.time()
         layer1a(ctx, res, vv, la, "A14")
         tm["L1a_A14"] = round(time.time() - t0, 1); t0 = time.time()
+        cwd_b = os.path.join(work, "cwd_b14")     # a fresh, empty directory: B14 has glob characters
+        os.makedirs(cwd_b)
+        os.chdir(cwd_b)
         layer1a(ctx, res, vv, lb, "B14")
+        os.chdir(work)
         tm["L1a_B14"] = round(time.time() - t0, 1); t0 = time.time()
         hl = all_strings(HL12, n1)
         layer1b(ctx, res, vv, hl + all_strings(A14, 4) + lb)
